@@ -3,13 +3,23 @@ import DoitModel.Model.Clean
 namespace DoitModel.Clean
 
 /-! ### dry run -/
-theorem rmTarget_dry (t : Name) (st : World × List Ev) (p : Path) : (rmTarget true t st p).1 = st.1 := by
-  unfold rmTarget
+theorem rmLink_dry (t : Name) (st : World × List Ev) (p d : Path) : (rmLink true t st p d).1 = st.1 := by
+  unfold rmLink
   split
   · rfl
   · split
     · split <;> rfl
     · rfl
+
+theorem rmTarget_dry (t : Name) (st : World × List Ev) (p : Path) : (rmTarget true t st p).1 = st.1 := by
+  unfold rmTarget
+  split
+  · rfl
+  · split
+    · exact rmLink_dry t st p _
+    · split
+      · split <;> rfl
+      · rfl
 
 theorem foldl_fst_inv {α β γ : Type} (g : α × β → γ → α × β) (hg : ∀ st x, (g st x).1 = st.1) :
     ∀ (l : List γ) (st : α × β), (l.foldl g st).1 = st.1 := by
@@ -54,9 +64,9 @@ def dryOk : Ev → Prop
   | .ran _ _ d => d = true
   | _ => True
 
-theorem rmTarget_dryOk (dry : Bool) (t : Name) (st : World × List Ev) (p : Path)
-    (h : ∀ e, e ∈ st.2 → dryOk e) : ∀ e, e ∈ (rmTarget dry t st p).2 → dryOk e := by
-  unfold rmTarget
+theorem rmLink_dryOk (t : Name) (st : World × List Ev) (p d : Path)
+    (h : ∀ e, e ∈ st.2 → dryOk e) : ∀ e, e ∈ (rmLink true t st p d).2 → dryOk e := by
+  unfold rmLink
   intro e he
   split at he
   · simp only [List.mem_append, List.mem_singleton] at he
@@ -65,11 +75,30 @@ theorem rmTarget_dryOk (dry : Bool) (t : Name) (st : World × List Ev) (p : Path
     · rw [he]; trivial
   · split at he
     · split at he <;>
-      · simp only [List.mem_append, List.mem_singleton] at he
+      · simp only [if_true, List.mem_append, List.mem_singleton] at he
         rcases he with he | he
         · exact h e he
         · rw [he]; trivial
     · exact h e he
+
+theorem rmTarget_dryOk (t : Name) (st : World × List Ev) (p : Path)
+    (h : ∀ e, e ∈ st.2 → dryOk e) : ∀ e, e ∈ (rmTarget true t st p).2 → dryOk e := by
+  unfold rmTarget
+  intro e he
+  split at he
+  · simp only [List.mem_append, List.mem_singleton] at he
+    rcases he with he | he
+    · exact h e he
+    · rw [he]; trivial
+  · split at he
+    · exact rmLink_dryOk t st p _ h e he
+    · split at he
+      · split at he <;>
+        · simp only [List.mem_append, List.mem_singleton] at he
+          rcases he with he | he
+          · exact h e he
+          · rw [he]; trivial
+      · exact h e he
 
 theorem runAct_dryOk (t : Name) (k : Nat) (a : Act) (st : World × List Ev)
     (h : ∀ e, e ∈ st.2 → dryOk e) : ∀ e, e ∈ (runAct true t k a st).2 → dryOk e := by
@@ -123,7 +152,7 @@ theorem taskClean_dryOk (tbl : Table) (t : Name) (st : World × List Ev)
     cases tk.kind with
     | nothing => exact h
     | targets =>
-      exact foldl_snd_inv (fun evs => ∀ e, e ∈ evs → dryOk e) _ (fun st p hh => rmTarget_dryOk true t st p hh) _ _ h
+      exact foldl_snd_inv (fun evs => ∀ e, e ∈ evs → dryOk e) _ (fun st p hh => rmTarget_dryOk t st p hh) _ _ h
     | actions as => exact runActs_dryOk t as 0 st h
 
 theorem cleanTasks_dryOk (tbl : Table) (forget : Bool) (order : List Name) (w : World) :
@@ -135,16 +164,27 @@ theorem cleanTasks_dryOk (tbl : Table) (forget : Bool) (order : List Name) (w : 
   simpa [cleanOne] using this
 
 /-! ### the DB -/
+theorem rmLink_db (dry : Bool) (t : Name) (st : World × List Ev) (p d : Path) :
+    (rmLink dry t st p d).1.db = st.1.db := by
+  unfold rmLink
+  split
+  · cases dry <;> rfl
+  · split
+    · split <;> rfl
+    · rfl
+
 theorem rmTarget_db (dry : Bool) (t : Name) (st : World × List Ev) (p : Path) :
     (rmTarget dry t st p).1.db = st.1.db := by
   unfold rmTarget
   split
   · cases dry <;> rfl
   · split
+    · exact rmLink_db dry t st p _
     · split
+      · split
+        · rfl
+        · cases dry <;> rfl
       · rfl
-      · cases dry <;> rfl
-    · rfl
 
 theorem foldl_db_inv {γ : Type} (g : World × List Ev → γ → World × List Ev)
     (hg : ∀ st x, (g st x).1.db = st.1.db) :
